@@ -460,6 +460,36 @@ fn uv_round_trip(rng: &mut Rng) {
                 }
             }
         }
+        // the same query from a foreign frame: `transform` carries the query point into the mesh frame
+        let t = Iso3::new(
+            Vector3::new(rng.range(-3.0, 3.0), rng.range(-3.0, 3.0), rng.range(-3.0, 3.0)) * size,
+            Vector3::new(rng.range(-1.0, 1.0), rng.range(-1.0, 1.0), rng.range(-1.0, 1.0)) * rng.range(0.1, 3.0),
+        );
+        let q = t.inverse() * p3;
+        match mesh.uv_with_tol(&q, 1e-6 * size + 1e-9, 3.2, Some(&t)) {
+            None => v.require(false, "uv.uv_with_tol_finds_point_given_in_another_frame", || format!("{t:?}")),
+            Some((uv, depth)) => {
+                v.require((uv - p2).norm() <= 1e-8 * size, "uv.surface_point_in_another_frame_to_uv", || format!("{:e}", (uv - p2).norm()));
+                v.require(depth.abs() <= 1e-8 * size, "uv.depth_zero_on_surface_in_another_frame", || format!("{depth:e}"));
+            }
+        }
+        // a point lifted off the face along its normal by h has depth h and the same uv
+        let (pa, pb, pc) = (v3[f[0] as usize], v3[f[1] as usize], v3[f[2] as usize]);
+        let nrm = (pb - pa).cross(&(pc - pa));
+        if nrm.norm() > 1e-9 * size * size {
+            let nrm = nrm.normalize();
+            let h = rng.range(-1.0, 1.0) * 1e-3 * size;
+            let lifted = p3 + nrm * h;
+            if let Some((uv, depth)) = mesh.uv_with_tol(&lifted, 2e-3 * size, 3.2, None) {
+                // the closest surface point may sit on a neighbouring face of a curved sheet; judged
+                // only when it is the foot of the normal
+                if (uv - p2).norm() <= 1e-9 * size {
+                    v.require((depth - h).abs() <= 1e-9 * size, "uv.depth_is_signed_offset_along_normal", || format!("{depth:e} vs {h:e}"));
+                }
+            } else {
+                v.require(false, "uv.uv_with_tol_finds_lifted_point", || format!("{h:e}"));
+            }
+        }
     }
     emit_oracle_only("flatten.uv", &Tok::new(), &Tok::new(), &v);
 }
